@@ -2370,6 +2370,15 @@ class Circuit(Unitary, StateVectorMap, Collection[Operation]):
                 if len(region_bldr) > num_qudits:
                     continue
 
+                # Discard regions that leave the bounding region
+                if bounding_region is not None and any(
+                    q not in bounding_region
+                    or iv[0] < bounding_region[q][0]
+                    or iv[1] > bounding_region[q][1]
+                    for q, iv in region_bldr.items()
+                ):
+                    continue
+
                 # Discard invalid regions
                 if not valid_region:
                     continue
